@@ -28,6 +28,11 @@ func (p *PgSQLDataEncoderProcessor) ID() string {
 // OnColumn encode binary value to text and back. Should be before and after tokenizer processor
 func (p *PgSQLDataEncoderProcessor) OnColumn(ctx context.Context, data []byte) (context.Context, []byte, error) {
 	if len(data) == 0 {
+		// an empty value may be the decoded form of a non-empty encoding (the text format of an empty bytea
+		// is "\x"): give the client what the database sent, not the decoded emptiness
+		if encodedValue, ok := base.GetEncodedValueFromContext(ctx); ok {
+			return ctx, encodedValue, nil
+		}
 		return ctx, data, nil
 	}
 
